@@ -2,6 +2,7 @@ package main
 
 import (
 	"go/token"
+	"go/types"
 	"sort"
 	"strings"
 )
@@ -154,7 +155,15 @@ func orderRule(w *World, r *Report) {
 			pos := w.Pos(m.Decl.Pos())
 			// an adder extends the list on every successful path: a path that returns with the list as it was has
 			// dropped its argument (or put it somewhere the encoder does not look for it)
-			if bad == "" {
+			takesBytes := false
+			if sg, ok := m.Obj.Type().(*types.Signature); ok {
+				for i := 0; i < sg.Params().Len(); i++ {
+					if isByteSlice(sg.Params().At(i).Type()) {
+						takesBytes = true // a step of a decoder: what it stores depends on the input, not on the caller's wish
+					}
+				}
+			}
+			if bad == "" && !takesBytes {
 				extended, skipped := 0, token.NoPos
 				for _, rt := range fs.Rets {
 					if rt.IsErr || rt.St == nil {
